@@ -14,7 +14,10 @@ RULE = (
     "which decides the expression for child sequences of any length. Exhaustive over all trees up to "
     "size 4 (quick) / 5 (thorough) over a block and an inline alphabet, random trees up to size 14 "
     "beyond; malformed expressions (unknown name, inline/block mix, unclosed ( or {, dangling operator, "
-    "trailing text, dead end) must make Schema() raise. match_fragment is cross-checked on real "
+    "trailing text, dead end) must make Schema() raise. A further family declares several near-duplicate "
+    "expressions in ONE schema (same tree with other spacing, blanks between names removed where the "
+    "run-together name is itself a declared type, small edits) and decides every node type against its "
+    "own expression. match_fragment is cross-checked on real "
     "fragments. distinct = (alphabet, tree size, root operator, number of automaton states, outcome)."
 )
 ASSUMPTIONS = [
@@ -32,12 +35,78 @@ def EXHAUSTIVE(tier):
     return "every expression syntax tree with <= %d nodes over the block alphabet {a,b,c,g,r} and the inline alphabet {text,i,j,inline}; each decided for all child sequences by automaton product" % MAXSIZE[tier]
 
 
+NMULTI = {"quick": 160, "thorough": 8000}
+
+
 def cases(tier):
-    return STRIDES[tier] + NRANDOM[tier] // 10 + MALFORMED
+    return STRIDES[tier] + NRANDOM[tier] // 10 + MALFORMED + NMULTI[tier]
+
+
+MULTI_NAMES = ["a", "b", "c", "g", "ab", "ba", "aa", "bc", "abc"]
+
+
+def multi_case(ctx, rnd):
+    """One schema declaring several node types x0..xk whose expressions are near-duplicates of
+    each other: the same tree printed with different spacing / parentheses, the same text with
+    the blanks between names removed (a different expression when the run-together name is a
+    declared type: 'a b' vs 'ab'), small edits of the tree.  Every x_i is decided against its
+    own expression: a matcher shared, cached or confused between declarations shows up."""
+    from ..refschema import RefSchema
+
+    base = gen.bounded_ast(rnd, MULTI_NAMES, rnd.randint(2, 8))
+    exprs = []
+    for _ in range(rnd.randint(2, 3)):
+        exprs.append((ast_print(base, rnd), base))
+    plain = ast_print(base, None)
+    exprs.append((plain, base))
+    squeezed = "".join(exprs[0][0].split())
+    exprs.append((squeezed, None))
+    exprs.append(("".join(plain.split()), None))
+    exprs.append((plain.replace(" ", "  "), base))
+    other = gen.bounded_ast(rnd, MULTI_NAMES, rnd.randint(1, 6))
+    exprs.append((ast_print(other, rnd), other))
+    exprs.append((ast_print(("seq", (base, other)), rnd), None))
+    rnd.shuffle(exprs)
+    extra = {"ab": {}, "ba": {}, "aa": {"group": "g"}, "bc": {}, "abc": {}}
+    # keep only expressions the reference accepts on their own (a squeezed text may name an
+    # undeclared type or be malformed; that is the malformed family's business)
+    keep = []
+    for e, a in exprs:
+        if any(e == k[0] for k in keep):
+            continue
+        try:
+            RefSchema(cw.probe_spec(e, extra))
+        except (SchemaRejected, TooComplex):
+            continue
+        keep.append((e, a))
+    if len(keep) < 2:
+        ctx.count("multi_schemas_skipped")
+        return
+    spec = cw.probe_spec(keep[0][0], extra)
+    del spec["nodes"]["x"]
+    for k, (e, a) in enumerate(keep):
+        spec["nodes"]["x%d" % k] = {"content": e}
+    spec["nodes"]["doc"] = {"content": "(" + " | ".join(["x%d" % k for k in range(len(keep))] + ["a", "b", "c"]) + ")*"}
+    S, rs = cw.build(spec)
+    if isinstance(rs, (SchemaRejected, TooComplex)):
+        ctx.count("multi_schemas_skipped")
+        return
+    ctx.ev()
+    det = {"exprs": [e for e, _ in keep], "alphabet": "multi"}
+    if isinstance(S, BaseException):
+        ctx.violation("rejected-wellformed", "Schema() raised %s: %s for a schema whose expressions %r are each well-formed" % (type(S).__name__, S, det["exprs"]), det, {"exc": type(S).__name__})
+        return
+    ctx.count("multi_schemas")
+    if len({"".join(e.split()) for e, _ in keep}) < len(keep):
+        ctx.count("multi_schemas_with_expressions_equal_up_to_spacing")
+    for k, (e, a) in enumerate(keep):
+        ctx.count("multi_expressions")
+        check_node(ctx, S, rs, "x%d" % k, e, "multi", a or ("name", "?"), rnd, {**det, "expr": e, "node": "x%d" % k})
 
 
 def floors(tier):
-    return {"expressions_wellformed": 10000, "expressions_rejected_expected": 200, "product_pairs": 30000, "match_fragment_checks": 2000, "distinct_nontrivial": 60}
+    return {"expressions_wellformed": 10000, "expressions_rejected_expected": 200, "product_pairs": 30000, "match_fragment_checks": 2000, "distinct_nontrivial": 60, "multi_expressions": 500,
+            "multi_schemas_with_expressions_equal_up_to_spacing": 50}
 
 
 def check_expr(ctx, ast, alphabet, rnd, exhaustive):
@@ -76,16 +145,22 @@ def check_expr(ctx, ast, alphabet, rnd, exhaustive):
         ctx.violation("accepted-dead-end", "Schema() accepted %r although a required position in it can only be filled by non-generatable nodes "
                       "(every path to a valid end from some reachable state needs a text node or a node with required attributes)" % expr,
                       det, {"immediate_edge_check_passes": True})
+    check_node(ctx, S, rs, "x", expr, alphabet, ast, rnd, det)
+
+
+def check_node(ctx, S, rs, tname, expr, alphabet, ast, rnd, det):
+    """Walk the compiled matcher of node type `tname` completely, in product with the
+    derivatives of ITS OWN expression as the reference read it from the spec."""
     ctx.count("expressions_wellformed")
     if ctx.counters["expressions_wellformed"] % 500 == 1:
         ctx.sample(det)
-    x = S.nodes["x"]
-    rx = rs.nodes["x"]
+    x = S.nodes[tname]
+    rx = rs.nodes[tname]
     if x.inline_content != rx.inline_content or x.is_leaf != rx.is_leaf:
         ctx.violation("inline-content", "inline_content/is_leaf of %r = %r/%r, reference %r/%r" % (expr, x.inline_content, x.is_leaf, rx.inline_content, rx.is_leaf), det)
     npairs = 0
     states = set()
-    for st, D, path in cw.product(S, rs, "x"):
+    for st, D, path in cw.product(S, rs, tname):
         npairs += 1
         states.add(id(st))
         ctx.count("product_pairs")
@@ -126,7 +201,7 @@ def check_expr(ctx, ast, alphabet, rnd, exhaustive):
     # match_fragment on real fragments: random walks, accepted and rejected
     from prosemirror.model import Fragment
 
-    names = [n for n in S.nodes if n not in ("doc", "x")]
+    names = [n for n in S.nodes if n != "doc" and not n.startswith("x")]
     for _ in range(3):
         seq = []
         D = rx.regex
@@ -196,6 +271,10 @@ def case(ctx, rnd, i):
             check_expr(ctx, ast, alphabet, rnd, False)
         return
     i -= nr
+    if i < NMULTI[ctx.tier]:
+        multi_case(ctx, rnd)
+        return
+    i -= NMULTI[ctx.tier]
     # malformed strings (not generated from trees)
     expr = BAD[i % len(BAD)]
     spec = cw.probe_spec(expr)
